@@ -177,6 +177,7 @@ PROPS = {
     },
     'C17': {
         'tpl_check': True,
+        'race_driver': True,
         'regex_check': True,
         'extra_props': ['C17b', 'C17c', 'C00_regex'],
         'ops': [('html', 300, 10000), ('regex', 1500, 30000)],
@@ -232,8 +233,8 @@ PROPS = {
         'extra_props': ['C20b'],
         'race_driver': True,
         'ops': [('handler', 150, 5000), ('live', 25, 600), ('scan', 150, 5000, ('-mix', 'c01'))],
-        'corr': ['corr:handler', 'corr:snap', 'corr:err', 'corr:panic'],
-        'prop': ['C20', 'C01'],
+        'corr': ['corr:handler', 'corr:snap', 'corr:err', 'corr:panic', 'corr:ids', 'corr:sig', 'corr:order'],
+        'prop': ['C20', 'C01', 'C04', 'C05', 'C12'],
         'nontrivial': ['status=', 'live'],
         'input_fields': 4,
         'rule': 'webstack.SnapshotHandler under httptest over method x maxmem x augment x similarity values (valid, invalid, signed, padded, overflowing): status class must equal the model decision table, a 200 page must tokenise, '
